@@ -65,6 +65,10 @@ struct Harness {
     lens: &'static [usize],
     tick_budget: usize,
     thorough_only: bool,
+    /// the state mutex is NOT modelled from its hooks (they are plain scheduling points); threads
+    /// really block on it and the scheduler detects that from the kernel's thread state. Slower,
+    /// but a change that splits or shortens the critical section is not masked by the model.
+    unmodelled_state_lock: bool,
 }
 
 fn harnesses() -> Vec<Harness> {
@@ -79,9 +83,10 @@ fn harnesses() -> Vec<Harness> {
         lens,
         tick_budget,
         thorough_only,
+        unmodelled_state_lock: false,
     };
     let num = OutK::File(Some(NamingK::Numbers));
-    vec![
+    let mut v = vec![
         h("direct/file-numbers/2x2", ModeK::Direct, num, CleanK::Never, false, 2, 2, &[9], 0, false),
         h("direct/file-tsdirect/3x1", ModeK::Direct, OutK::File(Some(NamingK::TimestampsDirect)), CleanK::Never, false, 3, 1, &[9], 0, false),
         h("direct/file-timestamps/2x2", ModeK::Direct, OutK::File(Some(NamingK::Timestamps)), CleanK::Never, false, 2, 2, &[9], 0, false),
@@ -101,7 +106,17 @@ fn harnesses() -> Vec<Harness> {
         h("direct/file-numbers/3x2", ModeK::Direct, num, CleanK::Never, false, 3, 2, &[9], 0, true),
         h("async-capa4/file-numbers/2x3", ModeK::Async(1, 4, 0), num, CleanK::Never, false, 2, 3, &[6, 9, 7], 0, true),
         h("async-capa4/file-numbers+cleanup-in-writer-thread/2x2", ModeK::Async(1, 4, 0), num, CleanK::Log(1), false, 2, 2, &[9], 0, true),
-    ]
+    ];
+    for (name, mode, thorough_only) in [
+        ("direct/file-numbers/2x2/unmodelled-state-lock", ModeK::Direct, false),
+        ("buffered8/file-numbers/2x2/unmodelled-state-lock", ModeK::BufDont(8), false),
+        ("async-capa4/file-numbers/2x2/unmodelled-state-lock", ModeK::Async(1, 4, 0), true),
+    ] {
+        let mut x = h(name, mode, num, CleanK::Never, false, 2, 2, &[9, 6], 0, thorough_only);
+        x.unmodelled_state_lock = true;
+        v.push(x);
+    }
+    v
 }
 
 fn active(tier: &str) -> Vec<Harness> {
@@ -120,6 +135,8 @@ fn sched_cfg(h: &Harness) -> SchedCfg {
     SchedCfg {
         ignore: vec!["flw_pool_pop", "set_max_level", "symlink_remove", "symlink_create", "flush", "std_pool_pop"],
         tick_budget: h.tick_budget,
+        detect_real_blocking: h.unmodelled_state_lock,
+        nonblocking_locks: if h.unmodelled_state_lock { vec!["flw_state"] } else { vec![] },
         ..SchedCfg::default()
     }
 }
@@ -422,6 +439,7 @@ fn stress(out: &mut Out) {
             lens: &[9, 30, 7],
             tick_budget: 0,
             thorough_only: false,
+            unmodelled_state_lock: false,
         };
         let h2 = h.clone();
         let r = crate::run_isolated(std::time::Duration::from_secs(60), move || {
